@@ -161,3 +161,188 @@ META = dict(
                  'AD(n, z) p-value routine stubbed by an arbitrary real in the symbolic run'],
     stubs=['qsort', 'malloc/free', 'log: uninterpreted function', 'AD: arbitrary value'],
 )
+
+
+# ------------------------------------------------------------------------------------------------ engine B parts (pit, dscore)
+import numpy as _np
+import z3 as _z3
+from engine.pysym import core as _core
+from engine.pysym.core import SR as _SR, assume as _assume
+from engine.pysym.runner import Case as _Case, close as _close, is_nan as _is_nan, run_cases as _run_cases
+from engine.llir.xr import rv as _q
+
+_EPS = 1e-10
+
+
+def _conj(cs):
+    r = True
+    for c in cs:
+        if isinstance(c, (bool, _np.bool_)):
+            if not c:
+                return False
+            continue
+        r = c if r is True else (r & c)
+    return r
+
+
+def _disj(cs):
+    r = False
+    for c in cs:
+        if isinstance(c, (bool, _np.bool_)):
+            if c:
+                return True
+            continue
+        r = c if r is False else (r | c)
+    return r
+
+
+class Pit(_Case):
+    """metrics.pit(random=True): jitter an arbitrary value in [-EPS, EPS)"""
+    prop = 'C10'
+    time_budget = {'quick': 90, 'thorough': 400}
+
+    def __init__(self, n, m):
+        self.n, self.m = n, m
+        self.name = 'pit:random:n%d:m%d' % (n, m)
+        self.params = dict(n=n, m=m)
+        self.functions = ['hydrodiy.stat.metrics.pit']
+
+    def modules(self):
+        from hydrodiy.stat import metrics
+        return [metrics]
+
+    def inputs(self):
+        def sv(nm):
+            v = _SR(_z3.Real(nm))
+            _assume(_z3.And(v.e >= -100, v.e <= 100))
+            return v
+        obs = [sv('y%d' % i) for i in range(self.n)]
+        ens = [[sv('x%d_%d' % (i, j)) for j in range(self.m)] for i in range(self.n)]
+        cst, censor = sv('cst'), sv('censor')
+        _assume(_z3.And(cst.e >= 0, cst.e <= 1))
+        # values either tied exactly or separated by much more than the jitter; the same for the censoring threshold
+        flat = obs + [v for r in ens for v in r] + [censor]
+        for a in range(len(flat)):
+            for b in range(a + 1, len(flat)):
+                d = flat[a].e - flat[b].e
+                _assume(_z3.Or(d == 0, d >= _q(1e-6), d <= -_q(1e-6)))
+        return dict(obs=obs, ens=ens, cst=cst, censor=censor)
+
+    def run(self, I):
+        from hydrodiy.stat import metrics
+        sym = isinstance(I['obs'][0], _SR)
+        if sym:
+            obs = _core.symarray(I['obs'])
+            ens = _np.empty((self.n, self.m), dtype=object)
+            for i in range(self.n):
+                for j in range(self.m):
+                    ens[i, j] = I['ens'][i][j]
+            ens = ens.view(_core.SymArray)
+        else:
+            obs, ens = _np.array(I['obs'], dtype=float), _np.array(I['ens'], dtype=float)
+        pits, sudo = metrics.pit(obs, ens, random=True, cst=I['cst'], censor=I['censor'])
+        return dict(pits=list(_np.asarray(pits, dtype=object).flat), sudo=[bool(b) for b in sudo])
+
+    def spec(self, I, O, err):
+        res = [('no-exception', err is None)]
+        if err is not None:
+            return res
+        c, cen, m = I['cst'], I['censor'], self.m
+        cc = (0.5 if (c > 0.5) else c) if not isinstance(c, _SR) else _SR(_z3.If(c.e > 0.5, _z3.RealVal('1/2'), c.e))
+        for i in range(self.n):
+            y = I['obs'][i]
+            below = [x < y for x in I['ens'][i]]      # strictly below (values are tied exactly or clearly apart)
+            tied = [x == y for x in I['ens'][i]]
+            p = O['pits'][i]
+            # pit = (k + 0.5 - c) / (1 - c + m) with k between the number of members clearly below and that number plus the ties
+            opts = []
+            for k in range(m + 1):
+                nb = sum([(_z3.If(b.e, 1, 0) if hasattr(b, 'e') else int(bool(b))) for b in below])
+                nt = sum([(_z3.If(b.e, 1, 0) if hasattr(b, 'e') else int(bool(b))) for b in tied])
+                okk = (nb <= k) & (k <= nb + nt) if not (isinstance(nb, int) and isinstance(nt, int)) else (nb <= k <= nb + nt)
+                if _z3.is_expr(okk):
+                    okk = _core.sb(okk)
+                val = _close(p * (1 - cc + m), k + 0.5 - cc, 1e-9, stol=1e-9)
+                opts.append(_conj([okk, val]))
+            res.append(('pit=(k+0.5-c)/(1-c+m)[%d]' % i, _disj(opts)))
+            res.append(('pit-in-[0,1][%d]' % i, (p >= 0) & (p <= 1) if isinstance(p, _SR) else 0 <= p <= 1))
+            want = _conj([y <= cen, _disj([x <= cen for x in I['ens'][i]])])
+            got = O['sudo'][i]
+            res.append(('pseudo-flag-iff-obs-and-a-member-at-or-below-censor[%d]' % i, want if got else (~want if not isinstance(want, (bool, _np.bool_)) else (not want))))
+        return res
+
+
+class DScore1(_Case):
+    """metrics.dscore for single-member forecasts: (Pearson correlation of the argsort ranks + 1)/2"""
+    prop = 'C10'
+
+    def __init__(self, n):
+        self.n = n
+        self.name = 'dscore:single-member:n%d' % n
+        self.params = dict(n=n)
+        self.functions = ['hydrodiy.stat.metrics.dscore']
+
+    def modules(self):
+        from hydrodiy.stat import metrics
+        return [metrics]
+
+    def inputs(self):
+        def sv(nm):
+            v = _SR(_z3.Real(nm))
+            _assume(_z3.And(v.e >= -100, v.e <= 100))
+            return v
+        obs, sim = [sv('y%d' % i) for i in range(self.n)], [sv('s%d' % i) for i in range(self.n)]
+        for arr in (obs, sim):
+            for a in range(self.n):
+                for b in range(a + 1, self.n):
+                    d = arr[a].e - arr[b].e
+                    _assume(_z3.Or(d >= _q(1e-3), d <= -_q(1e-3)))     # distinct (ties are the kernel-level subject)
+        return dict(obs=obs, sim=sim)
+
+    def run(self, I):
+        from hydrodiy.stat import metrics
+        sym = isinstance(I['obs'][0], _SR)
+        mk = _core.symarray if sym else (lambda xs: _np.array(xs, dtype=float))
+        sim = mk(I['sim']).reshape(-1, 1)
+        return dict(D=metrics.dscore(mk(I['obs']), sim))
+
+    def spec(self, I, O, err):
+        res = [('no-exception', err is None)]
+        if err is not None:
+            return res
+        D, n = O['D'], self.n
+        obs, sim = I['obs'], I['sim']
+        pairs = [(i, j) for i in range(n) for j in range(i + 1, n)]
+        same = _conj([((obs[i] < obs[j]) == (sim[i] < sim[j])) if isinstance(obs[i], _SR) else ((obs[i] < obs[j]) == (sim[i] < sim[j])) for i, j in pairs])
+        opp = _conj([((obs[i] < obs[j]) == (sim[i] > sim[j])) if isinstance(obs[i], _SR) else ((obs[i] < obs[j]) == (sim[i] > sim[j])) for i, j in pairs])
+        Df = float(D)
+        res.append(('score-in-[0,1]', -1e-12 <= Df <= 1 + 1e-12))
+        res.append(('perfect-ordering-scores-1', (abs(Df - 1) < 1e-9) if same is True else (True if same is False else (same == (abs(Df - 1) < 1e-9)) if False else _impl(same, abs(Df - 1) < 1e-9))))
+        res.append(('inverse-ordering-scores-0', _impl(opp, abs(Df) < 1e-9)))
+        return res
+
+
+def _impl(a, b):
+    if isinstance(a, (bool, _np.bool_)):
+        return b if a else True
+    if isinstance(b, (bool, _np.bool_)):
+        return True if b else ~a
+    return ~a | b
+
+
+def cases(tier):
+    out = [Pit(1, 1), Pit(1, 2), Pit(2, 2)] + ([Pit(2, 3), Pit(3, 2)] if tier == 'thorough' else [])
+    out += [DScore1(2), DScore1(3)] + ([DScore1(4)] if tier == 'thorough' else [])
+    return out
+
+
+def part_python(tier, seed, workdir):
+    return _run_cases('C10', cases(tier), tier, seed)
+
+
+PARTS = [part_python]
+META['explanation'] += ('; engine B: the real metrics.pit(random=True) with the jitter an arbitrary value of its range and symbolic observations, members, '
+                        'plotting constant and censoring threshold (PIT in [0,1], = (k+0.5-c)/(1-c+m) with k the members below the observation, pseudo flag iff '
+                        'the observation and at least one member are at or below the threshold) and metrics.dscore for single-member forecasts (score in '
+                        '[0,1], 1 / 0 for perfectly / inversely ordered forecasts)')
+META['bounds'] += ['pit: (forecasts x members) 1x1, 1x2, 2x2 (thorough 2x3, 3x2), values tied exactly or >= 1e-6 apart', 'dscore: 2-3 distinct single-member forecasts (thorough 4)']
